@@ -121,20 +121,17 @@ class WBS:
 
         # Some tasks in WBS can have predecessors or successors outside WBS (i.e. from another project).
         # This predecessors/successors should not be copied.
-        for t in all_tasks.values():
-            for pr in t.predecessors:
-                if pr.wbs != self:
-                    cloned_tasks.setdefault(pr.id, pr)
-            for sc in t.successors:
-                if sc.wbs != self:
-                    cloned_tasks.setdefault(sc.id, sc)
+        def linked(task: Task) -> Optional[Task]:
+            if task.wbs != self:
+                return task
+            return cloned_tasks.get(task.id)
 
         for t in all_tasks.values():
             c = cloned_tasks[t.id]
             c.parent = cloned_tasks.get(all_tasks[t.id].parent.id) if all_tasks[t.id].parent else None
             c.children = [cloned_tasks[ch.id] for ch in all_tasks[t.id].children]
-            c.predecessors = [cloned_tasks[ch.id] for ch in all_tasks[t.id].predecessors if ch.id in cloned_tasks]
-            c.successors = [cloned_tasks[ch.id] for ch in all_tasks[t.id].successors if ch.id in cloned_tasks]
+            c.predecessors = [p for p in (linked(ch) for ch in all_tasks[t.id].predecessors) if p is not None]
+            c.successors = [s for s in (linked(ch) for ch in all_tasks[t.id].successors) if s is not None]
 
         return cloned_tasks
 
